@@ -124,7 +124,7 @@ Proof.
   - intros f r Hg. rewrite aget_aupd in Hg. deq g f.
     + rewrite Hg0 in Hg. cbn in Hg. inversion Hg; subst r. clear Hg.
       unfold fut_ok. cbn [fut_done f_side f_cell f_st f_reg f_h]. rewrite Hs0.
-      split; [intros v' _; split; [reflexivity|exact Hr0]|].
+      split; [split; [intros v' _; split; [reflexivity|exact Hr0] | intros _ _ X; discriminate]|].
       destruct (J f r0 Hg0) as [_ Hh]. rewrite Hs0 in Hh. exact Hh.
     + exact (J f r Hg).
 Qed.
@@ -179,7 +179,7 @@ Proof.
     + destruct (rq_member _ _ _ _ W f Hq) as [r0 [Hg0 [Hs0 [Hr0 [Hst0 Hc0]]]]].
       rewrite Hg0 in Hg. cbn in Hg. inversion Hg; subst r. clear Hg.
       unfold fut_ok. cbn [fut_disc f_side f_cell f_st f_reg f_h]. rewrite Hs0.
-      split; [intros v Hv; congruence|].
+      split; [split; [intros v Hv; congruence | intros _ X; discriminate]|].
       destruct (J f r0 Hg0) as [_ Hh]. rewrite Hs0 in Hh. exact Hh.
     + exact (J f r Hg).
 Qed.
@@ -254,7 +254,8 @@ Proof.
   intros W Hg0 Hs0 Hr0. pose proof W as [A B C D E G I J].
   assert (Hq : qhas f RQ = false) by (eapply not_in_rq; [exact W|exact Hg0|left; exact Hr0]).
   assert (Hcell : f_cell r0 = None).
-  { destruct (J f r0 Hg0) as [Hk _]. rewrite Hs0 in Hk. destruct (f_cell r0) as [v|]; [|reflexivity].
+  { destruct (J f r0 Hg0) as [Hk _]. rewrite Hs0 in Hk. destruct Hk as [Hk _].
+    destruct (f_cell r0) as [v|]; [|reflexivity].
     destruct (Hk v eq_refl). congruence. }
   assert (Hnew : exists r, aget f (aupd f fut_park F) = Some r /\ f_side r = Rx /\ f_reg r = true
                            /\ f_st r = WAITING /\ f_cell r = None).
@@ -279,7 +280,7 @@ Proof.
   - intros f' r Hg. rewrite aget_aupd in Hg. deq f f'.
     + rewrite Hg0 in Hg. cbn in Hg. inversion Hg; subst r. clear Hg.
       unfold fut_ok. cbn [fut_park f_side f_cell f_st f_reg f_h f_val]. rewrite Hs0.
-      split; [intros v Hv; congruence|].
+      split; [split; [intros v Hv; congruence | intros _ X; discriminate]|].
       destruct (J f' r0 Hg0) as [_ Hh]. rewrite Hs0 in Hh. exact Hh.
     + exact (J f' r Hg).
 Qed.
@@ -354,9 +355,9 @@ Proof.
     unfold fut_ok. cbn [fut_unreg f_side f_cell f_st f_reg f_h f_val]. split; [|exact Hh].
     destruct (f_side r0) eqn:Hs0.
     + rewrite (Hc1 eq_refl). destruct Hk as [Hk _]. split; [exact Hk|]. intros X; discriminate.
-    + destruct (Hc2 eq_refl) as [->|[-> Hnd]].
-      * intros v Hv; discriminate.
-      * intros v Hv. destruct (Hk v Hv) as [X _]. congruence.
+    + destruct Hk as [Hk Hk2]. destruct (Hc2 eq_refl) as [->|[-> Hnd]].
+      * split; [intros v Hv; discriminate | intros X; discriminate].
+      * split; [intros v Hv; destruct (Hk v Hv) as [X _]; congruence | intros X; discriminate].
 Qed.
 
 (** fresh poll_send hands off: slot.take() *)
@@ -681,7 +682,7 @@ Proof.
     + cbn [aget] in Hg. deq f' f; [|discriminate]. inversion Hg; subst r.
       unfold fut_ok. split; [|exact Hh]. destruct (f_side r0).
       * split; [right; exact Hc|]. intros Y; congruence.
-      * intros v Hv. congruence.
+      * split; [intros v Hv; congruence | intros Y; congruence].
 Qed.
 
 (** every step preserves WF *)
